@@ -128,3 +128,146 @@ theorem warmChoice_spec (costWarm costSmooth : ℝ) :
     simp [min_eq_left (not_lt.mp h)]
 
 end MjProof.PrimalSearch
+
+/-! ### `PrimalEval` (scalar rows) evaluates the difference of the documented cost along the search line -/
+namespace MjProof.PrimalSearch
+open MjProof MjProof.Constraint
+
+theorem two_real : (two : ℝ) = 2 := by simp [two]
+
+/-- cost of scalar row number `i` at the residual `x`, as `mj_constraintUpdate_impl` computes it (C11/C12 model) -/
+noncomputable def rowCost (ne nf i : ℕ) (r : LRow ℝ) (x : ℝ) : ℝ :=
+  if i < ne then (eqRow r.D x).cost
+  else if i < ne + nf then (fricRow r.D r.R r.floss x).cost
+  else (nonnegRow r.D x).cost
+
+/-- the line cost carried by the accumulator of `PrimalEval` -/
+noncomputable def accCost (alpha : ℝ) (a : Acc ℝ) : ℝ := a.cost + (alpha * alpha * a.q2 + alpha * a.q1 + a.q0)
+
+theorem frictionCost_eq (x f R D : ℝ) : frictionCost x f (R * f) D = (fricRow D R f x).cost := by
+  rw [fricRow_cost]
+  unfold frictionCost
+  simp only [r_mul, r_add, r_sub, r_neg, r_lt, r_le, half_real]
+  by_cases h1 : x ≤ -(R * f)
+  · have h1' : x ≤ -R * f := by linarith
+    have hn : ¬(-(R * f) < x ∧ x < R * f) := fun h => absurd h.1 (not_lt.mpr h1)
+    rw [if_neg hn, if_pos h1, if_pos h1']; ring
+  · have h1' : ¬ x ≤ -R * f := by intro h; apply h1; linarith
+    rw [if_neg h1']
+    by_cases h2 : R * f ≤ x
+    · have hn : ¬(-(R * f) < x ∧ x < R * f) := fun h => absurd h.2 (not_lt.mpr h2)
+      rw [if_neg hn, if_neg h1, if_pos h2]; ring
+    · have hq : -(R * f) < x ∧ x < R * f := ⟨not_le.mp h1, not_le.mp h2⟩
+      rw [if_pos hq, if_neg h2]
+
+theorem frictionCostDif_eq (start x f R D : ℝ) :
+    frictionCostDif start x f (R * f) D = (fricRow D R f x).cost - (fricRow D R f start).cost := by
+  rw [← frictionCost_eq, ← frictionCost_eq]
+  unfold frictionCostDif
+  simp only []
+  -- the three same-zone shortcuts are algebraically the difference of the two absolute costs
+  by_cases h00 : fzone start (R * f) = 0 ∧ fzone x (R * f) = 0
+  · rw [if_pos h00]
+    obtain ⟨hs, hx⟩ := h00
+    unfold fzone at hs hx
+    have hs' : -(R * f) < start ∧ start < R * f := by
+      by_contra hc
+      simp only [r_neg, r_lt, r_le] at hs
+      rw [if_neg hc] at hs
+      split_ifs at hs <;> omega
+    have hx' : -(R * f) < x ∧ x < R * f := by
+      by_contra hc
+      simp only [r_neg, r_lt, r_le] at hx
+      rw [if_neg hc] at hx
+      split_ifs at hx <;> omega
+    unfold frictionCost
+    simp only [r_mul, r_add, r_sub, r_neg, r_lt, r_le, half_real]
+    rw [if_pos hx', if_pos hs']; ring
+  · rw [if_neg h00]
+    by_cases hmm : fzone start (R * f) = -1 ∧ fzone x (R * f) = -1
+    · rw [if_pos hmm]
+      obtain ⟨hs, hx⟩ := hmm
+      unfold fzone at hs hx
+      simp only [r_neg, r_lt, r_le] at hs hx
+      have hs' : ¬(-(R * f) < start ∧ start < R * f) ∧ start ≤ -(R * f) := by
+        split_ifs at hs with a b <;> first | exact ⟨a, b⟩ | omega
+      have hx' : ¬(-(R * f) < x ∧ x < R * f) ∧ x ≤ -(R * f) := by
+        split_ifs at hx with a b <;> first | exact ⟨a, b⟩ | omega
+      unfold frictionCost
+      simp only [r_mul, r_add, r_sub, r_neg, r_lt, r_le, half_real]
+      rw [if_neg hx'.1, if_pos hx'.2, if_neg hs'.1, if_pos hs'.2]; ring
+    · rw [if_neg hmm]
+      by_cases hpp : fzone start (R * f) = 1 ∧ fzone x (R * f) = 1
+      · rw [if_pos hpp]
+        obtain ⟨hs, hx⟩ := hpp
+        unfold fzone at hs hx
+        simp only [r_neg, r_lt, r_le] at hs hx
+        have hs' : ¬(-(R * f) < start ∧ start < R * f) ∧ ¬ start ≤ -(R * f) := by
+          split_ifs at hs with a b <;> first | exact ⟨a, b⟩ | omega
+        have hx' : ¬(-(R * f) < x ∧ x < R * f) ∧ ¬ x ≤ -(R * f) := by
+          split_ifs at hx with a b <;> first | exact ⟨a, b⟩ | omega
+        unfold frictionCost
+        simp only [r_mul, r_add, r_sub, r_neg, r_lt, r_le, half_real]
+        rw [if_neg hx'.1, if_neg hx'.2, if_neg hs'.1, if_neg hs'.2]; ring
+      · rw [if_neg hpp]
+
+/-- one row of `PrimalEval` adds exactly the change of that row's cost between `alpha = 0` and `alpha` -/
+theorem evalRow_accCost (ne nf : ℕ) (alpha : ℝ) (a : Acc ℝ) (i : ℕ) (r : LRow ℝ) :
+    accCost alpha (evalRow ne nf alpha (a, i) r).1 =
+      accCost alpha a + (rowCost ne nf i r (r.jaref + alpha * r.jv) - rowCost ne nf i r r.jaref) ∧
+    (evalRow ne nf alpha (a, i) r).2 = i + 1 := by
+  unfold evalRow rowCost
+  simp only []
+  by_cases h1 : i < ne
+  · simp only [h1, if_true, accCost, prepRow, eqRow_cost, r_mul, r_add, half_real, and_true]
+    ring
+  · simp only [h1, if_false]
+    by_cases h2 : i < ne + nf
+    · simp only [h2, if_true]
+      have hd := frictionCostDif_eq r.jaref (r.jaref + alpha * r.jv) r.floss r.R r.D
+      simp only [r_mul, r_add] at hd ⊢
+      split_ifs <;> simp only [accCost, r_add, hd, and_true] <;> try ring
+    · simp only [h2, if_false, nonnegRow_cost, prepRow, r_mul, r_add, r_sub, r_lt, zero_real, half_real]
+      by_cases hx : r.jaref + alpha * r.jv < 0
+      · have hx' : ¬ (0 ≤ r.jaref + alpha * r.jv) := not_le.mpr hx
+        simp only [hx, if_true, hx', if_false, accCost, and_true]
+        by_cases hs : r.jaref < 0
+        · have hs' : ¬ (0 ≤ r.jaref) := not_le.mpr hs
+          simp only [hs, if_true, hs', if_false]; ring
+        · have hs' : 0 ≤ r.jaref := not_lt.mp hs
+          simp only [hs, if_false, hs', if_true]; ring
+      · have hx' : 0 ≤ r.jaref + alpha * r.jv := not_lt.mp hx
+        simp only [hx, if_false, hx', if_true, accCost, and_true]
+        by_cases hs : r.jaref < 0
+        · have hs' : ¬ (0 ≤ r.jaref) := not_le.mpr hs
+          simp only [hs, if_true, hs', if_false]; ring
+        · have hs' : 0 ≤ r.jaref := not_lt.mp hs
+          simp only [hs, if_false, hs', if_true]; ring
+
+theorem foldl_evalRow (ne nf : ℕ) (alpha : ℝ) (rows : List (LRow ℝ)) (a : Acc ℝ) (i : ℕ) :
+    accCost alpha (rows.foldl (evalRow ne nf alpha) (a, i)).1 =
+      accCost alpha a + ((rows.zipIdx i).map (fun p =>
+        rowCost ne nf p.2 p.1 (p.1.jaref + alpha * p.1.jv) - rowCost ne nf p.2 p.1 p.1.jaref)).sum := by
+  induction rows generalizing a i with
+  | nil => simp
+  | cons r rest ih =>
+    simp only [List.foldl_cons, List.zipIdx_cons, List.map_cons, List.sum_cons]
+    obtain ⟨h1, h2⟩ := evalRow_accCost ne nf alpha a i r
+    have e : evalRow ne nf alpha (a, i) r = ((evalRow ne nf alpha (a, i) r).1, i + 1) := by
+      rw [← h2]
+    rw [e, ih, h1]; ring
+
+/-- **`PrimalEval` returns the exact change of the documented cost along the search line**: Gauss term
+    `alpha*g1 + alpha²*g2` plus, row by row, the change of the row cost of `mj_constraintUpdate_impl` between the
+    residuals `Jaref` and `Jaref + alpha*Jv` (equality, friction-loss and inequality rows). -/
+theorem evalRows_cost_eq (ne nf : ℕ) (g1 g2 : ℝ) (rows : List (LRow ℝ)) (alpha : ℝ) :
+    (evalRows ne nf g1 g2 rows alpha).1 = alpha * g1 + alpha * alpha * g2 +
+      ((rows.zipIdx 0).map (fun p =>
+        rowCost ne nf p.2 p.1 (p.1.jaref + alpha * p.1.jv) - rowCost ne nf p.2 p.1 p.1.jaref)).sum := by
+  unfold evalRows
+  simp only []
+  have h := foldl_evalRow ne nf alpha rows ⟨zero, zero, zero, zero, g1, g2⟩ 0
+  simp only [accCost, zero_real, r_mul, r_add] at h ⊢
+  rw [h]; ring
+
+end MjProof.PrimalSearch
